@@ -244,7 +244,10 @@ Inductive finding :=
 | multi_literal      (* a literal-valued item that is not the last contribution *)
 | bare_cr_header     (* a header value with a bare CR reaches a quoted string *)
 | name_unescaped     (* a mailbox name with a double quote or backslash in LIST/LSUB/STATUS *)
-| flag_atom.         (* a stored flag containing a parenthesis / quote / brace *)
+| flag_atom          (* a stored flag containing a parenthesis / quote / brace *)
+| item_suppressed    (* a requested item is not answered because of substring cross-talk *)
+| rfc822_renamed     (* RFC822 is answered under the name BODY[] *)
+| partial_range.     (* <a.b>: origin not reported / range ignored / applied to BODY[TEXT] of another item *)
 
 Definition is_lit (o : out) : bool := match o with Inline _ _ => false | _ => true end.
 
